@@ -237,6 +237,16 @@ func (m *CPU) Run(app risc.Application) (int, error) {
 		}
 	}
 
+	// The units drained above may have produced results: write them back
+	m.writeBus.Connect(cycle + 1)
+	for !m.areWriteUnitsEmpty() || !m.writeBus.IsEmpty() {
+		for _, wu := range m.writeUnits {
+			_ = wu.Cycle(wuReq{-1})
+		}
+		cycle++
+		m.writeBus.Connect(cycle + 1)
+	}
+
 	for _, cc := range m.cacheControllers {
 		cycle += cc.export()
 	}
